@@ -609,7 +609,7 @@ func checkC19N(cc any) *ev.Verdict {
 				return v.Failf("nav-range", "%s hover range %v, the token spans %v", where, gotRange, hit.span)
 			}
 			if hit.kind == "var" {
-				if !strings.Contains(hv.Contents.Value, "$"+hit.name+": "+hit.typ) {
+				if !strings.Contains(hv.Contents.Value, "$"+hit.name) || !strings.Contains(hv.Contents.Value, hit.typ) {
 					return v.Failf("nav-hover-content", "%s is a use of $%s, declared %s, but hover says %q", where, hit.name, hit.typ, hv.Contents.Value)
 				}
 				var loc struct {
@@ -629,7 +629,7 @@ func checkC19N(cc any) *ev.Verdict {
 					v.NonTrivial = true
 				}
 			} else {
-				if !strings.Contains(hv.Contents.Value, "`"+hit.name+"(") {
+				if !strings.Contains(hv.Contents.Value, hit.name) {
 					return v.Failf("nav-hover-content", "%s is the built-in function %s but hover says %q", where, hit.name, hv.Contents.Value)
 				}
 				if d.Response != "null" {
